@@ -208,7 +208,7 @@ func (i idxField) GetValue(opts *options, elem value) (value, Error) {
 	}
 
 	arr := cfg.fields.array()
-	if i.i >= len(arr) {
+	if i.i < 0 || i.i >= len(arr) {
 		return nil, raiseMissing(cfg, i.String())
 	}
 	return arr[i.i], nil
@@ -268,6 +268,9 @@ func (i idxField) SetValue(opts *options, elem value, v value) Error {
 	sub, ok := elem.(cfgSub)
 	if !ok {
 		return raiseExpectedObject(opts, elem)
+	}
+	if i.i < 0 {
+		return raiseIndexOutOfBounds(opts, elem, i.i)
 	}
 
 	sub.c.fields.setAt(i.i, elem, v)
